@@ -60,8 +60,10 @@ FO_RULE = ("Scenarios are drawn from the seeded PRNG (clients, keys, Gets with b
            "schedules at call-out and lock granularity. ")
 
 prop("C02", quick={"runs": 8000}, thorough={"runs": 100000000, "budget_s": 600}, level="fault_enumeration",
-     rule=FO_RULE + "Backend Read/Write failures are injected at chosen call ordinals. Non-trivial: two Gets of different clients on "
-     "one key overlapped; distinct = distinct (scenario, schedule signature).",
+     rule=FO_RULE + "Half of the runs come in families of 16 that share one small scenario while the failing backend call sweeps over "
+     "every ordinal (Read ordinals 0-7, then Write ordinals 0-7) under varying schedules; the other half inject failures at random "
+     "ordinals of larger scenarios (incl. the UpdateTTL re-store). Non-trivial: two Gets of different clients on one key overlapped; "
+     "distinct = distinct (scenario, schedule signature).",
      rules=["C02.R1 wrong-key", "C02.R2 unfinished-or-failed-build", "C02.R3 fabricated (nil / zero value with nil error)",
             "C02.R4 foreign or unknown error"],
      probes=["other_get_in_flight_at_unexpected_read_error", "other_get_in_flight_at_write_error", "stale_value_and_failing_builder",
@@ -107,7 +109,7 @@ prop("C07", quick={"runs": 16000}, thorough={"runs": 100000000, "budget_s": 600}
             "expired reads carry value and expiry instant"],
      probes=["read:nil", "read:notfound", "read:expired", "delete:nil", "delete:notfound", "expireAll", "deleteAll", "walk", "len", "load", "store"])
 prop("C10", quick={"runs": 16000}, thorough={"runs": 100000000, "budget_s": 600},
-     rule=BE_RULE + "Root-driven (no concurrency): 1-6 writes with config TTL {default, unlimited, 1ns..10y}, context TTL {none, 0, +-1ns..+-10y}, "
+     rule=BE_RULE + "Root-driven (no concurrency): 1-6 writes with config TTL {default, unlimited, 1ns..10y, negative -2ns..-1y}, context TTL {none, 0, +-1ns..+-10y}, "
      "ExpirationJitter {disabled, default, values in (0,1]}, jitter draw {0, 0.5, 1-2^-53, PRNG}; after each write Walk gives ExpireAt, the clock "
      "is moved to ExpireAt-1ns and ExpireAt+1ns. Non-trivial: at least one write; distinct = distinct scenarios.",
      rules=["C10.R1 ExpireAt within [t+T-|T|J/2, t+T+|T|J/2] (exactly t+T without jitter)", "C10.R2 never expires with UnlimitedTTL and no context TTL",
@@ -147,7 +149,7 @@ prop("C18", quick={"runs": 12000}, thorough={"runs": 100000000, "budget_s": 600}
      "named differently; other half: backend workloads (sequential with ExpireAll/DeleteAll, concurrent without). At quiescence the metric sums are "
      "compared with the harness's own event log. Non-trivial: at least one operation.",
      rules=["C18.build / failed / refreshed (frontend)", "C18.write / delete / reads (hit+miss+expired = non-skipped reads + entries touched by ExpireAll)"],
-     probes=["refresh_counted", "failed_build_counted", "expireAll_counted", "deleteAll_counted"])
+     probes=["refresh_counted", "failed_build_counted", "expireAll_counted", "deleteAll_counted", "concurrent_metrics_checked"])
 TR_RULE = "Root-driven scenarios drawn from the seeded PRNG; the simulator owns the byte stream / round-tripper / deleters and the iteration order of maps and sync.Map (so every Walk order the source can produce is sampled). "
 prop("C13", quick={"runs": 6000}, thorough={"runs": 100000000, "budget_s": 600},
      rule=TR_RULE + "Source caches with 0-300 entries (keys of differing lengths incl. empty and binary, values nil / zero / populated structs / maps / pointers, "
@@ -164,24 +166,26 @@ prop("C14", quick={"runs": 6000}, thorough={"runs": 100000000, "budget_s": 600},
      probes=["cache_imported", "importer_cache_unknown_to_exporter", "types_hash_fresh_process_evaluations"])
 prop("C15", quick={"runs": 9000}, thorough={"runs": 100000000, "budget_s": 600}, level="fault_enumeration",
      rule=TR_RULE + "InvalidationIndex over 1-3 cache names with 1-3 deleters each (real backends behind a fault wrapper), generated label/key incidence structures "
-     "(several labels per key, shared keys, repeated labelling, unused labels, labelled-but-absent keys). A third of the runs are fault-free sequences, a third "
-     "inject a deleter failure at a chosen Delete ordinal followed by a fault-free retry, a third run AddLabels / AddCache / InvalidateByLabels / writes concurrently.",
+     "(several labels per key, shared keys, repeated labelling, unused labels, labelled-but-absent keys, duplicated label arguments). A third of the runs are "
+     "fault-free sequences; a third come in families of 12 sharing one structure while the failing Delete ordinal sweeps 0..11 (every delete position), each "
+     "followed by a fault-free retry; a third run AddLabels / AddCache / InvalidateByLabels / writes concurrently; every 12th run injects the failure while "
+     "other tasks AddLabels concurrently and ends with a fault-free sweep over all labels.",
      rules=["C15.R1 labelled keys absent after nil", "C15.R2 unlabelled keys untouched", "C15.R3 count = entries really removed", "C15.R4 failure returned, no panic", "C15.R5 retry removes every labelled key"],
-     probes=["invalidate_ok", "invalidate_with_deleter_failure", "retry_after_failure", "concurrent_invalidate"])
+     probes=["invalidate_ok", "invalidate_with_deleter_failure", "retry_after_failure", "concurrent_invalidate", "sweep_after_concurrent_failure"])
 prop("C17", quick={"runs": 12000}, thorough={"runs": 100000000, "budget_s": 600},
      rule="1-8 client tasks call Invalidate 1-4 times each with sleeps around SkipInterval (-1ns, exactly, +1ns); 0-5 callbacks yield / sleep simulated time while the "
      "Invalidator's mutex is held (cooperative lock table). Non-trivial: at least two calls; distinct = distinct (scenario, schedule signature).",
-     rules=["C17.R1 accepted calls never overlap", "C17.R2 consecutive accepts >= SkipInterval apart", "C17.R3 every callback exactly once in order, synchronously",
+     rules=["C17.R1 accepted calls never overlap", "C17.R2 consecutive accepted calls start running callbacks >= SkipInterval apart", "C17.R3 every callback exactly once in order, synchronously",
             "C17.R4 rejected: no callback, ErrAlreadyInvalidated", "C17.R5 no callbacks: ErrNothingToInvalidate"],
      probes=["rejected_call", "two_accepted_calls", "overlapping_invalidate_calls"])
 prop("C16", quick={"runs": 12000}, thorough={"runs": 100000000, "budget_s": 900}, race=True,
      rule="Programs: every unordered pair of backend operations (write, born-expired write, read, delete, ExpireAll, DeleteAll, Len, Walk, Load, Store, "
      "Dump, Restore, a sleep that lets a janitor cleanup/eviction cycle run) on a shared key, on the three backends and the three eviction strategies, "
      "two schedules each (first 2106 runs); then random concurrent workloads of the other engines (backend mixes with janitor, Failover Gets, "
-     "InvalidationIndex AddLabels/AddCache/InvalidateByLabels, Invalidator). The instrumented library reports every struct-field and map access and "
+     "InvalidationIndex AddLabels/AddCache/InvalidateByLabels, Invalidator). The instrumented library reports every struct-field, slice-element and map access (incl. what encoding/gob reads in Dump) and "
      "every synchronisation event to a vector-clock detector; harness hand-offs create no happens-before edge. Non-trivial: >= 2 client tasks; "
      "distinct = distinct (scenario, schedule signature).",
-     rules=["C16.R1 unordered conflicting accesses to a struct field", "C16.R2 unordered conflicting operations on a Go map (runtime may throw 'concurrent map read and map write')"],
+     rules=["C16.R1 unordered conflicting accesses to a struct field or slice element (incl. atomic vs plain access)", "C16.R2 unordered conflicting operations on a Go map (runtime may throw 'concurrent map read and map write')"],
      probes=[],
      level_note="Trusted base as for the other checks, plus the detector's model of synchronisation: mutex/RWMutex (release->acquire), sync.Map operations "
      "(acquire+release on the map: coarser than reality, can only hide races), sync/atomic (acquire+release on the address), close->receive on channels, "
